@@ -737,6 +737,14 @@ func (i *instance) beginNextRound() {
 // See shouldSkipToRound.
 func (i *instance) skipToRound(round uint64, chain *ECChain, justification *Justification) {
 	i.log("skipping from round %d to round %d with %s", i.current.Round, round, i.proposal.String())
+	if i.current.Phase == QUALITY_PHASE {
+		// Skipping ahead ends the QUALITY phase early: settle the proposal and the
+		// candidates as the end of QUALITY would. Otherwise the unvetted input is
+		// carried into CONVERGE without being a candidate and, unless some other
+		// candidate value is received, the CONVERGE timeout fails with no value.
+		i.proposal = i.quality.FindStrongQuorumValueForLongestPrefixOf(i.input)
+		i.addCandidatePrefixes(i.proposal)
+	}
 	i.current.Round = round
 	metrics.currentRound.Record(context.TODO(), int64(i.current.Round))
 	metrics.skipCounter.Add(context.TODO(), 1, metric.WithAttributes(attrSkipToRound))
